@@ -312,7 +312,10 @@ func (n *MNode) text(cx int) string {
 		return s
 	case nCall:
 		var p []string
-		for _, k := range n.Kids {
+		for i, k := range n.Kids {
+			if n.Name == "evk" && i == 1 {
+				continue // the formula evk evaluates is handed to the host by number
+			}
 			p = append(p, k.text(cxAssign))
 		}
 		if n.Raw == "spread" {
@@ -338,6 +341,16 @@ func (n *MNode) stubsUsed(into map[string]bool) {
 	}
 	for _, k := range n.Kids {
 		k.stubsUsed(into)
+	}
+}
+
+// collectInner lists the formulas that evk calls in n hand to the host, by number.
+func (n *MNode) collectInner(into map[int]string) {
+	if n.Op == nCall && n.Name == "evk" {
+		into[int(n.Kids[0].V.N)] = n.Kids[1].text(cxTop)
+	}
+	for _, k := range n.Kids {
+		k.collectInner(into)
 	}
 }
 
@@ -580,6 +593,35 @@ func (e *mEnv) eval(n *MNode) (MV, error) {
 		}
 		if !e.m.hasThis || !e.m.stubs[n.Name] {
 			return mNull(), errModelNotFunc
+		}
+		if n.Name == "evk" {
+			// the host function evaluates another formula on this runner, here and now
+			e.calls++
+			e.log = append(e.log, "evk("+n.Kids[0].V.String()+")")
+			if e.faultAt == e.calls {
+				return mNull(), errModelHost
+			}
+			return e.eval(n.Kids[1])
+		}
+		if n.Name == "inc" {
+			v, err := e.eval(n.Kids[0])
+			if err != nil {
+				return mNull(), err
+			}
+			switch {
+			case v.K == mkBool || v.K == mkArr || v.K == mkMap || (v.K == mkStr && strings.TrimSpace(v.S) != ""):
+				return mNull(), errModelHost // cannot be converted: an error, and the function is not called
+			case v.K != mkNum || v.N > 1<<62 || v.N < -(1<<62):
+				// null, blank text, numbers outside the int range: what an int parameter
+				// receives then is not stated (a formula evaluated again can grow into this)
+				return mNull(), errModelType
+			}
+			e.calls++
+			e.log = append(e.log, "inc("+v.String()+")")
+			if e.faultAt == e.calls {
+				return mNull(), errModelHost
+			}
+			return mNum(v.N + 1), nil
 		}
 		args := make([]MV, 0, len(n.Kids))
 		for i, k := range n.Kids {
